@@ -30,12 +30,21 @@ func (s *Server) Search(ctx context.Context, req *webserverv1.SearchRequest) (*w
 		return nil, status.Error(codes.InvalidArgument, err.Error())
 	}
 
-	res, err := s.streamer.Search(ctx, q, zoekt.SearchOptionsFromProto(req.GetOpts()))
+	res, err := s.streamer.Search(ctx, q, searchOptionsFromRequest(req.GetOpts()))
 	if err != nil {
 		return nil, err
 	}
 
 	return res.ToProto(), nil
+}
+
+// searchOptionsFromRequest decodes the options of a request. The searchers
+// dereference them, so options that the client left unset are the defaults.
+func searchOptionsFromRequest(p *webserverv1.SearchOptions) *zoekt.SearchOptions {
+	if opts := zoekt.SearchOptionsFromProto(p); opts != nil {
+		return opts
+	}
+	return &zoekt.SearchOptions{}
 }
 
 func (s *Server) StreamSearch(req *webserverv1.StreamSearchRequest, ss webserverv1.WebserverService_StreamSearchServer) error {
@@ -49,7 +58,7 @@ func (s *Server) StreamSearch(req *webserverv1.StreamSearchRequest, ss webserver
 	sender := gRPCChunkSender(ss)
 	sampler := newSamplingSender(sender)
 
-	err = s.streamer.StreamSearch(ss.Context(), q, zoekt.SearchOptionsFromProto(request.GetOpts()), sampler)
+	err = s.streamer.StreamSearch(ss.Context(), q, searchOptionsFromRequest(request.GetOpts()), sampler)
 	if err == nil {
 		sampler.Flush()
 	}
